@@ -7,6 +7,7 @@ import (
 	"go/types"
 	"os"
 	"sort"
+	"strconv"
 	"strings"
 
 	"golang.org/x/tools/go/ssa"
@@ -1324,6 +1325,58 @@ func storeKeyCtors(p *Prog, dup func(label string, ci, first *ctorInfo, fn *ssa.
 							}
 						}
 					}
+				}
+			}
+		}
+		if ci.first == "" {
+			// the key is spelt out by concatenation, here or in a shared helper that takes the kind
+			// as a parameter: "/" + kind + "/" + suffix with a constant kind
+			for _, b := range fn.Blocks {
+				ret, ok := b.Instrs[len(b.Instrs)-1].(*ssa.Return)
+				if !ok || len(ret.Results) != 1 {
+					continue
+				}
+				rt := TermOf(ret.Results[0], ctx)
+				if rv, isCall := ret.Results[0].(*ssa.Call); isCall {
+					if cal := rv.Common().StaticCallee(); cal != nil && fnPkg(cal) != nil && fnPkg(cal).Pkg.Path() == storePkg && cal.Blocks != nil {
+						cctx := &Ctx{Fn: cal, Site: rv, Parent: ctx, Depth: 1}
+						var rts []*Term
+						for _, cb := range cal.Blocks {
+							if cr, ok := cb.Instrs[len(cb.Instrs)-1].(*ssa.Return); ok && len(cr.Results) == 1 {
+								rts = append(rts, TermOf(cr.Results[0], cctx))
+							}
+						}
+						if len(rts) == 1 {
+							rt = rts[0]
+						}
+					}
+				}
+				var parts []*Term
+				var flat func(t *Term)
+				flat = func(t *Term) {
+					if t.Op == "bin" && t.Name == "+" && len(t.Args) == 2 {
+						flat(t.Args[0])
+						flat(t.Args[1])
+						return
+					}
+					parts = append(parts, t)
+				}
+				flat(rt)
+				lead, i := "", 0
+				for ; i < len(parts); i++ {
+					u := parts[i].unconv()
+					if u.Op != "const" || !strings.HasPrefix(u.Name, "\"") {
+						break
+					}
+					if sv, err := strconv.Unquote(strings.SplitN(u.Name, ":", 2)[0]); err == nil {
+						lead += sv
+					} else {
+						break
+					}
+				}
+				if len(lead) >= 3 && lead[0] == '/' && lead[len(lead)-1] == '/' && !strings.Contains(lead[1:len(lead)-1], "/") && i == len(parts)-1 {
+					ci.first = fmt.Sprintf("%q", lead[1:len(lead)-1])
+					ci.suffix = parts[i]
 				}
 			}
 		}
